@@ -28,6 +28,7 @@ func init() {
 			ruleGroupOptionOrder(c, "R9")
 			rulePortCutAtLastColon(c, "R8")
 			ruleCombinators(c, "R10")
+			ruleReadersWriteNothing(c, "R11", "hosts", "router")
 		},
 	})
 	register(&Spec{
@@ -47,6 +48,9 @@ func init() {
 			ruleCharClasses(c, "R7b", "mux.validOptionalPort")
 			ruleRegexpQuoting(c, "R8")
 			ruleIndexResetOnEveryPath(c, "R2c")
+			ruleReadersWriteNothing(c, "R9", "hosts", "tree")
+			ruleHostsVerdictIsLookup(c, "R10")
+			ruleHostsPatternsOnlyLowered(c, "R1b")
 		},
 	})
 	register(&Spec{
@@ -59,6 +63,7 @@ func init() {
 			rulePathVersion(c, "R1")
 			ruleMatchersWriteOnAccept(c, "R2")
 			ruleVersionOrderKept(c, "R4")
+			ruleReadersWriteNothing(c, "R5", "hosts")
 		},
 	})
 }
